@@ -346,6 +346,17 @@ func makePlan(base uint64, tier string, idx int) *lPlan {
 	if p.Lib["upload-max"] != "" {
 		own = append(own, lOp{K: "manysessions", Ms: int64(r.pick(1100, 1300, 2100))})
 	}
+	if mode == 1 && idx%40 == 1 {
+		lim, _ := strconv.Atoi(p.Set["rate-limit"])
+		for i := 0; i <= lim; i++ {
+			own = append(own, lOp{K: "ping"})
+		}
+		own = append(own, lOp{K: "flood", Ms: int64(r.pick(1100, 1500, 2500))})
+		for i := 0; i <= lim+1; i++ {
+			own = append(own, lOp{K: "ping"})
+		}
+		p.Profile = "rate limit, flood of addresses"
+	}
 	n := (6 + r.intn(10)) * scale
 	for i := 0; i < n; i++ {
 		switch r.intn(16) {
@@ -808,6 +819,14 @@ func (w *world) ownerOp(op lOp) {
 		w.gcProbe()
 	case "manysessions":
 		w.manySessions(int(op.Ms))
+	case "flood":
+		// very many addresses at once, one request each: the accounting of the others goes on
+		for i := 0; i < int(op.Ms); i++ {
+			if r := w.do(0, "GET", "/v2/", "", nil, nil, 0, lOp{XFF: fmt.Sprintf("10.%d.%d.%d", 1+i/60000, i/250%240, 1+i%250)}); r.refused {
+				return
+			}
+		}
+		w.out.Probes["flood-of-addresses"]++
 	}
 }
 
